@@ -1,123 +1,520 @@
-//! Frame assembly + executor.
-use crate::bits::{BackBits, FwdBits};
-use crate::{fse, huf};
+//! Spec encoder (FrameSpec -> bytes) and spec executor (FrameSpec -> plaintext), RFC 8878 section 3.
+use crate::bits::BackBits;
+use crate::dict::Dict;
+use crate::tables::*;
+use crate::{fse, huf, xxh};
 
-pub const LL_BASE: [(u32, u8); 36] = [(0,0),(1,0),(2,0),(3,0),(4,0),(5,0),(6,0),(7,0),(8,0),(9,0),(10,0),(11,0),(12,0),(13,0),(14,0),(15,0),(16,1),(18,1),(20,1),(22,1),(24,2),(28,2),(32,3),(40,3),(48,4),(64,6),(128,7),(256,8),(512,9),(1024,10),(2048,11),(4096,12),(8192,13),(16384,14),(32768,15),(65536,16)];
-pub const ML_BASE: [(u32, u8); 53] = [(3,0),(4,0),(5,0),(6,0),(7,0),(8,0),(9,0),(10,0),(11,0),(12,0),(13,0),(14,0),(15,0),(16,0),(17,0),(18,0),(19,0),(20,0),(21,0),(22,0),(23,0),(24,0),(25,0),(26,0),(27,0),(28,0),(29,0),(30,0),(31,0),(32,0),(33,0),(34,0),(35,1),(37,1),(39,1),(41,1),(43,2),(47,2),(51,3),(59,3),(67,4),(83,4),(99,5),(131,7),(259,8),(515,9),(1027,10),(2051,11),(4099,12),(8195,13),(16387,14),(32771,15),(65539,16)];
-pub const LL_DEFAULT: [i16; 36] = [4,3,2,2,2,2,2,2,2,2,2,2,2,1,1,1,2,2,2,2,2,2,2,2,2,3,2,1,1,1,1,1,-1,-1,-1,-1];
-pub const ML_DEFAULT: [i16; 53] = [1,4,3,2,2,2,2,2,2,1,1,1,1,1,1,1,1,1,1,1,1,1,1,1,1,1,1,1,1,1,1,1,1,1,1,1,1,1,1,1,1,1,1,1,1,1,-1,-1,-1,-1,-1,-1,-1];
-pub const OF_DEFAULT: [i16; 29] = [1,1,1,1,1,1,2,2,2,1,1,1,1,1,1,1,1,1,1,1,1,1,1,1,-1,-1,-1,-1,-1];
-
-pub fn code_of(table: &[(u32, u8)], v: u32) -> (u8, u32, u8) { let c = table.iter().rposition(|&(b, _)| b <= v).unwrap(); let (b, n) = table[c]; assert!(v - b < (1u32 << n) || n == 0 && v == b, "value {v} not representable"); (c as u8, v - b, n) }
-
-#[derive(Clone, Debug)]
-pub enum Mode { Predefined, Rle(u8), Fse(Vec<i16>, u8), Repeat }
-#[derive(Clone, Debug)]
-pub enum Lits { Raw(Vec<u8>, u8), Rle(u8, u32, u8), Huff { lits: Vec<u8>, weights: Vec<u8>, desc: WDesc, streams: u8, size_format: u8 }, Treeless { lits: Vec<u8>, streams: u8, size_format: u8 } }
-#[derive(Clone, Debug)]
-pub enum WDesc { Direct, Fse(Vec<i16>, u8) }
-#[derive(Clone, Copy, Debug)]
-pub struct Seq { pub ll: u32, pub ml: u32, pub of: u32 } // of = Offset_Value
-#[derive(Clone, Debug)]
-pub enum Block { Raw(Vec<u8>), Rle(u8, u32), Compressed { lits: Lits, count_form: u8, modes: [Mode; 3], seqs: Vec<Seq> } } // modes: LL, OF, ML
-
-#[derive(Clone, Default)]
-pub struct EncState { pub huf: Option<Vec<u8>>, pub tabs: [Option<TabKind>; 3] }
-#[derive(Clone)]
-pub enum TabKind { Rle(u8), Fse(fse::Table) }
-
-fn lit_bytes(l: &Lits) -> Vec<u8> { match l { Lits::Raw(v, _) => v.clone(), Lits::Rle(b, n, _) => vec![*b; *n as usize], Lits::Huff { lits, .. } | Lits::Treeless { lits, .. } => lits.clone() } }
-
-fn raw_rle_header(ty: u8, n: u32, size_format: u8) -> Vec<u8> {
-    match size_format { 0 | 2 => { assert!(n < 32); vec![ty | (size_format << 2) | ((n as u8) << 3)] }
-        1 => { assert!(n < 4096); let v = ty as u32 | (1 << 2) | (n << 4); v.to_le_bytes()[..2].to_vec() }
-        3 => { assert!(n < (1 << 20)); let v = ty as u32 | (3 << 2) | (n << 4); v.to_le_bytes()[..3].to_vec() }
-        _ => unreachable!() }
+#[derive(Clone, Debug, PartialEq)]
+pub enum Mode {
+    Predefined,
+    Rle(u8),
+    Fse(Vec<i16>, u8),
+    Repeat,
+}
+#[derive(Clone, Debug, PartialEq)]
+pub enum WDesc {
+    Direct,
+    Fse(Vec<i16>, u8),
+}
+#[derive(Clone, Debug, PartialEq)]
+pub enum Lits {
+    /// (bytes, size_format 0|1|2|3; 0 and 2 are the two encodings of the 5-bit form)
+    Raw(Vec<u8>, u8),
+    /// (byte, count, size_format)
+    Rle(u8, u32, u8),
+    /// weights = all symbols including the implied last one; streams 1|4; size_format 0..=3 (0 only with 1 stream)
+    Huff { lits: Vec<u8>, weights: Vec<u8>, desc: WDesc, streams: u8, size_format: u8 },
+    Treeless { lits: Vec<u8>, streams: u8, size_format: u8 },
+}
+#[derive(Clone, Copy, Debug, PartialEq, Eq)]
+pub struct Seq {
+    pub ll: u32,
+    pub ml: u32,
+    /// Offset_Value (1..=3 are repeat codes, otherwise offset + 3)
+    pub of: u32,
+}
+#[derive(Clone, Debug, PartialEq)]
+pub enum Block {
+    Raw(Vec<u8>),
+    Rle(u8, u32),
+    /// modes in the order LL, OF, ML; count_form = 1, 2 or 3 bytes; pick = which of a symbol's states ends the
+    /// backward chain (varies the initial states the decoder reads)
+    Compressed { lits: Lits, count_form: u8, modes: [Mode; 3], seqs: Vec<Seq>, pick: usize },
 }
 
-fn huff_section(ty: u8, lits: &[u8], weights: &[u8], table_desc: Vec<u8>, streams: u8, size_format: u8) -> Vec<u8> {
+#[derive(Clone, Debug, PartialEq, Default)]
+pub struct Header {
+    /// None = single segment
+    pub window_desc: Option<u8>,
+    /// (field width 1|2|4|8, value)
+    pub fcs: Option<(u8, u64)>,
+    /// (field width 1|2|4, id)
+    pub dict_id: Option<(u8, u32)>,
+    pub checksum: bool,
+    pub reserved_bit: bool,
+    pub unused_bit: bool,
+}
+impl Header {
+    pub fn window(desc: u8, checksum: bool) -> Header {
+        Header { window_desc: Some(desc), checksum, ..Default::default() }
+    }
+    pub fn window_size(&self) -> u64 {
+        match self.window_desc {
+            Some(d) => window_of_descriptor(d),
+            None => self.fcs.map(|f| f.1).unwrap_or(0),
+        }
+    }
+}
+
+#[derive(Clone, Debug, PartialEq)]
+pub struct FrameSpec {
+    pub header: Header,
+    pub blocks: Vec<Block>,
+}
+
+#[derive(Clone, Debug)]
+pub enum TabKind {
+    Rle(u8),
+    Fse(fse::Table),
+}
+#[derive(Clone, Debug, Default)]
+pub struct EncState {
+    pub huf: Option<Vec<u8>>,
+    pub tabs: [Option<TabKind>; 3],
+}
+impl EncState {
+    pub fn from_dict(d: &Dict) -> EncState {
+        EncState { huf: Some(d.huf_weights.clone()), tabs: [Some(TabKind::Fse(d.ll.clone())), Some(TabKind::Fse(d.of.clone())), Some(TabKind::Fse(d.ml.clone()))] }
+    }
+}
+
+pub fn lit_bytes(l: &Lits) -> Vec<u8> {
+    match l {
+        Lits::Raw(v, _) => v.clone(),
+        Lits::Rle(b, n, _) => vec![*b; *n as usize],
+        Lits::Huff { lits, .. } | Lits::Treeless { lits, .. } => lits.clone(),
+    }
+}
+
+fn raw_rle_header(ty: u8, n: u32, size_format: u8) -> Result<Vec<u8>, String> {
+    match size_format {
+        0 | 2 => {
+            if n >= 32 {
+                return Err(format!("{n} literals do not fit the 5-bit size"));
+            }
+            Ok(vec![ty | (size_format << 2) | ((n as u8) << 3)])
+        }
+        1 => {
+            if n >= 4096 {
+                return Err(format!("{n} literals do not fit the 12-bit size"));
+            }
+            let v = ty as u32 | (1 << 2) | (n << 4);
+            Ok(v.to_le_bytes()[..2].to_vec())
+        }
+        3 => {
+            if n >= (1 << 20) {
+                return Err(format!("{n} literals do not fit the 20-bit size"));
+            }
+            let v = ty as u32 | (3 << 2) | (n << 4);
+            Ok(v.to_le_bytes()[..3].to_vec())
+        }
+        _ => Err("size format".into()),
+    }
+}
+
+/// split of `n` literals into four streams
+pub fn four_way(n: usize) -> [usize; 4] {
+    let q = n.div_ceil(4);
+    let a = q.min(n);
+    let b = (2 * q).min(n);
+    let c = (3 * q).min(n);
+    [a, b - a, c - b, n - c]
+}
+
+fn huff_section(ty: u8, lits: &[u8], weights: &[u8], table_desc: Vec<u8>, streams: u8, size_format: u8) -> Result<Vec<u8>, String> {
+    if lits.iter().any(|&l| l as usize >= weights.len() || weights[l as usize] == 0) {
+        return Err("literal without a code".into());
+    }
     let cs = huf::codes(weights);
     let mut payload = table_desc;
-    if streams == 1 { assert_eq!(size_format, 0); payload.extend(huf::encode_stream(&cs, lits)); }
-    else { assert!(size_format >= 1); let q = (lits.len() + 3) / 4; let parts: Vec<&[u8]> = vec![&lits[..q.min(lits.len())], &lits[q.min(lits.len())..(2 * q).min(lits.len())], &lits[(2 * q).min(lits.len())..(3 * q).min(lits.len())], &lits[(3 * q).min(lits.len())..]];
-        let enc: Vec<Vec<u8>> = parts.iter().map(|p| huf::encode_stream(&cs, p)).collect();
-        for e in &enc[..3] { assert!(e.len() < 65536); payload.extend((e.len() as u16).to_le_bytes()); }
-        for e in &enc { payload.extend(e); } }
+    if streams == 1 {
+        if size_format != 0 {
+            return Err("one stream requires size format 0".into());
+        }
+        if lits.is_empty() {
+            return Err("empty huffman stream".into());
+        }
+        payload.extend(huf::encode_stream(&cs, lits));
+    } else {
+        if size_format == 0 {
+            return Err("four streams require size format 1..=3".into());
+        }
+        let parts = four_way(lits.len());
+        let mut off = 0;
+        let mut enc = vec![];
+        for p in parts {
+            enc.push(huf::encode_stream(&cs, &lits[off..off + p]));
+            off += p;
+        }
+        for e in &enc[..3] {
+            if e.len() >= 65536 {
+                return Err("stream too long for the jump table".into());
+            }
+            payload.extend((e.len() as u16).to_le_bytes());
+        }
+        for e in &enc {
+            payload.extend(e);
+        }
+    }
     let (regen, comp) = (lits.len() as u64, payload.len() as u64);
-    let (bits, hl) = match size_format { 0 | 1 => (10, 3), 2 => (14, 4), 3 => (18, 5), _ => unreachable!() };
-    assert!(regen < (1 << bits) && comp < (1 << bits), "sizes do not fit size format");
+    let (bits, hl) = match size_format {
+        0 | 1 => (10, 3),
+        2 => (14, 4),
+        3 => (18, 5),
+        _ => return Err("size format".into()),
+    };
+    if regen >= (1 << bits) || comp >= (1 << bits) {
+        return Err(format!("sizes {regen}/{comp} do not fit size format {size_format}"));
+    }
     let v: u64 = ty as u64 | ((size_format as u64) << 2) | (regen << 4) | (comp << (4 + bits));
-    let mut out = v.to_le_bytes()[..hl].to_vec(); out.extend(payload); out
+    let mut out = v.to_le_bytes()[..hl].to_vec();
+    out.extend(payload);
+    Ok(out)
 }
 
-pub fn encode_block_body(lits: &Lits, count_form: u8, modes: &[Mode; 3], seqs: &[Seq], st: &mut EncState) -> Vec<u8> {
+pub fn default_table(i: usize) -> fse::Table {
+    match i {
+        0 => fse::build(&LL_DEFAULT, LL_DEFAULT_LOG),
+        1 => fse::build(&OF_DEFAULT, OF_DEFAULT_LOG),
+        _ => fse::build(&ML_DEFAULT, ML_DEFAULT_LOG),
+    }
+}
+
+pub fn seq_codes(s: &Seq) -> Result<[(u8, u32, u8); 3], String> {
+    let ll = code_of(&LL_BASE, s.ll).ok_or(format!("literal length {} not representable", s.ll))?;
+    let ml = code_of(&ML_BASE, s.ml).ok_or(format!("match length {} not representable", s.ml))?;
+    if s.of == 0 {
+        return Err("offset value 0".into());
+    }
+    Ok([ll, of_code(s.of), ml])
+}
+
+pub fn encode_block_body(lits: &Lits, count_form: u8, modes: &[Mode; 3], seqs: &[Seq], pick: usize, st: &mut EncState) -> Result<Vec<u8>, String> {
     let mut out = match lits {
-        Lits::Raw(v, sf) => { let mut h = raw_rle_header(0, v.len() as u32, *sf); h.extend(v); h }
-        Lits::Rle(b, n, sf) => { let mut h = raw_rle_header(1, *n, *sf); h.push(*b); h }
+        Lits::Raw(v, sf) => {
+            let mut h = raw_rle_header(0, v.len() as u32, *sf)?;
+            h.extend(v);
+            h
+        }
+        Lits::Rle(b, n, sf) => {
+            let mut h = raw_rle_header(1, *n, *sf)?;
+            h.push(*b);
+            h
+        }
         Lits::Huff { lits, weights, desc, streams, size_format } => {
-            let head = &weights[..weights.len() - 1]; assert_eq!(huf::implied_last_weight(head), Some(*weights.last().unwrap()), "last weight must be the implied one");
-            let d = match desc { WDesc::Direct => huf::describe_direct(head), WDesc::Fse(dist, log) => huf::describe_fse(head, dist, *log) };
-            st.huf = Some(weights.clone()); huff_section(2, lits, weights, d, *streams, *size_format) }
-        Lits::Treeless { lits, streams, size_format } => { let w = st.huf.clone().expect("treeless needs a table"); huff_section(3, lits, &w, vec![], *streams, *size_format) }
+            if weights.len() < 2 {
+                return Err("need at least two symbols".into());
+            }
+            let head = &weights[..weights.len() - 1];
+            if huf::implied_last_weight(head) != Some(*weights.last().unwrap()) || huf::lengths_from_weights(weights).is_none() {
+                return Err("weights do not form a describable complete code".into());
+            }
+            let d = match desc {
+                WDesc::Direct => {
+                    if head.len() > 128 {
+                        return Err("too many weights for the direct form".into());
+                    }
+                    huf::describe_direct(head)
+                }
+                WDesc::Fse(dist, log) => huf::describe_fse(head, dist, *log).ok_or("weights not encodable with this FSE table")?,
+            };
+            st.huf = Some(weights.clone());
+            huff_section(2, lits, weights, d, *streams, *size_format)?
+        }
+        Lits::Treeless { lits, streams, size_format } => {
+            let w = st.huf.clone().ok_or("treeless literals need a previous table")?;
+            huff_section(3, lits, &w, vec![], *streams, *size_format)?
+        }
     };
     let n = seqs.len();
-    match count_form { 1 => { assert!(n < 128); out.push(n as u8); } 2 => { assert!(n < 0x7F00); out.push(0x80 | (n >> 8) as u8); out.push(n as u8); } 3 => { assert!(n >= 0x7F00 && n <= 0x7F00 + 0xFFFF); out.push(0xFF); out.extend(((n - 0x7F00) as u16).to_le_bytes()); } _ => unreachable!() }
-    if n == 0 { return out; }
-    let mode_bits = |m: &Mode| match m { Mode::Predefined => 0u8, Mode::Rle(_) => 1, Mode::Fse(..) => 2, Mode::Repeat => 3 };
+    match count_form {
+        1 => {
+            if n >= 128 {
+                return Err("count does not fit one byte".into());
+            }
+            out.push(n as u8);
+        }
+        2 => {
+            if n >= 0x7F00 {
+                return Err("count does not fit two bytes".into());
+            }
+            out.push(0x80 | (n >> 8) as u8);
+            out.push(n as u8);
+        }
+        3 => {
+            if !(0x7F00..=0x7F00 + 0xFFFF).contains(&n) {
+                return Err("count does not fit the three-byte form".into());
+            }
+            out.push(0xFF);
+            out.extend(((n - 0x7F00) as u16).to_le_bytes());
+        }
+        _ => return Err("count form".into()),
+    }
+    if n == 0 {
+        return Ok(out);
+    }
+    let mode_bits = |m: &Mode| match m {
+        Mode::Predefined => 0u8,
+        Mode::Rle(_) => 1,
+        Mode::Fse(..) => 2,
+        Mode::Repeat => 3,
+    };
     out.push(mode_bits(&modes[0]) << 6 | mode_bits(&modes[1]) << 4 | mode_bits(&modes[2]) << 2);
-    let defaults: [(&[i16], u8); 3] = [(&LL_DEFAULT, 6), (&OF_DEFAULT, 5), (&ML_DEFAULT, 6)];
-    for i in 0..3 { match &modes[i] {
-        Mode::Predefined => st.tabs[i] = Some(TabKind::Fse(fse::build(defaults[i].0, defaults[i].1))),
-        Mode::Rle(s) => { out.push(*s); st.tabs[i] = Some(TabKind::Rle(*s)); }
-        Mode::Fse(d, l) => { out.extend(fse::describe(d, *l)); st.tabs[i] = Some(TabKind::Fse(fse::build(d, *l))); }
-        Mode::Repeat => assert!(st.tabs[i].is_some(), "repeat needs a previous table") } }
-    // codes
-    let codes: Vec<[(u8, u32, u8); 3]> = seqs.iter().map(|s| { let of_code = 31 - s.of.leading_zeros(); [code_of(&LL_BASE, s.ll), (of_code as u8, s.of - (1 << of_code), of_code as u8), code_of(&ML_BASE, s.ml)] }).collect();
+    let max_log = [LL_MAX_LOG, OF_MAX_LOG, ML_MAX_LOG];
+    let max_sym = [35usize, 31, 52];
+    for i in 0..3 {
+        match &modes[i] {
+            Mode::Predefined => st.tabs[i] = Some(TabKind::Fse(default_table(i))),
+            Mode::Rle(s) => {
+                if *s as usize > max_sym[i] {
+                    return Err("RLE symbol out of range".into());
+                }
+                out.push(*s);
+                st.tabs[i] = Some(TabKind::Rle(*s));
+            }
+            Mode::Fse(d, l) => {
+                if *l > max_log[i] || *l < 5 || fse::dist_sum(d) != 1 << *l || d.len() > max_sym[i] + 1 {
+                    return Err("FSE table not allowed here".into());
+                }
+                out.extend(fse::describe(d, *l));
+                st.tabs[i] = Some(TabKind::Fse(fse::build(d, *l)));
+            }
+            Mode::Repeat => {
+                if st.tabs[i].is_none() {
+                    return Err("repeat mode needs a previous table".into());
+                }
+            }
+        }
+    }
+    let mut codes = Vec::with_capacity(n);
+    for s in seqs {
+        codes.push(seq_codes(s)?);
+    }
     // states backwards per table
-    let mut states = vec![[0usize; 3]; n]; let mut trans = vec![[(0u64, 0u32); 3]; n];
-    for i in 0..3 { if let Some(TabKind::Fse(t)) = &st.tabs[i] { let enc = fse::Enc::new(t); states[n - 1][i] = enc.state_for(codes[n - 1][i].0, 0);
-            for k in (0..n - 1).rev() { let (s, v, nb) = enc.prev_state(codes[k][i].0, states[k + 1][i]); states[k][i] = s; trans[k][i] = (v, nb); } }
-        else if let Some(TabKind::Rle(sym)) = &st.tabs[i] { for c in &codes { assert_eq!(c[i].0, *sym, "RLE table symbol mismatch"); } } }
+    let mut states = vec![[0usize; 3]; n];
+    let mut trans = vec![[(0u64, 0u32); 3]; n];
+    for i in 0..3 {
+        match &st.tabs[i] {
+            Some(TabKind::Fse(t)) => {
+                let enc = fse::Enc::new(t);
+                for c in &codes {
+                    if !enc.has(c[i].0) {
+                        return Err(format!("code {} has no state in table {i}", c[i].0));
+                    }
+                }
+                states[n - 1][i] = enc.state_for(codes[n - 1][i].0, pick);
+                for k in (0..n - 1).rev() {
+                    let (s, v, nb) = enc.prev_state(codes[k][i].0, states[k + 1][i]);
+                    states[k][i] = s;
+                    trans[k][i] = (v, nb);
+                }
+            }
+            Some(TabKind::Rle(sym)) => {
+                if codes.iter().any(|c| c[i].0 != *sym) {
+                    return Err("sequence code differs from the RLE symbol".into());
+                }
+            }
+            None => unreachable!(),
+        }
+    }
     let mut b = BackBits::new();
-    for i in [0usize, 1, 2] { if let Some(TabKind::Fse(t)) = &st.tabs[i] { b.push(states[0][i] as u64, t.log as u32); } } // init order LL, OF, ML
-    for k in 0..n { let c = &codes[k];
-        b.push(c[1].1 as u64, c[1].2 as u32); b.push(c[2].1 as u64, c[2].2 as u32); b.push(c[0].1 as u64, c[0].2 as u32); // OF, ML, LL extra bits
-        if k + 1 < n { for i in [0usize, 2, 1] { if let Some(TabKind::Fse(_)) = &st.tabs[i] { b.push(trans[k][i].0, trans[k][i].1); } } } } // update LL, ML, OF
+    for i in [0usize, 1, 2] {
+        // initial states are read in the order LL, OF, ML
+        if let Some(TabKind::Fse(t)) = &st.tabs[i] {
+            b.push(states[0][i] as u64, t.log as u32);
+        }
+    }
+    for k in 0..n {
+        let c = &codes[k];
+        // extra bits: OF, ML, LL
+        b.push(c[1].1 as u64, c[1].2 as u32);
+        b.push(c[2].1 as u64, c[2].2 as u32);
+        b.push(c[0].1 as u64, c[0].2 as u32);
+        if k + 1 < n {
+            // state updates: LL, ML, OF
+            for i in [0usize, 2, 1] {
+                if let Some(TabKind::Fse(_)) = &st.tabs[i] {
+                    b.push(trans[k][i].0, trans[k][i].1);
+                }
+            }
+        }
+    }
     out.extend(b.finish());
-    out
+    Ok(out)
 }
 
-pub struct Header { pub window_desc: Option<u8>, pub fcs: Option<(u8, u64)>, pub dict_id: Option<(u8, u32)>, pub checksum: bool }
-
-pub fn encode_frame(h: &Header, blocks: &[Block]) -> Vec<u8> {
-    let mut out = 0xFD2FB528u32.to_le_bytes().to_vec();
-    let fcs_flag = match h.fcs { None => 0, Some((1, _)) => 0, Some((2, _)) => 1, Some((4, _)) => 2, Some((8, _)) => 3, _ => panic!() };
-    let did_flag = match h.dict_id { None => 0, Some((1, _)) => 1, Some((2, _)) => 2, Some((4, _)) => 3, _ => panic!() };
-    let single = h.window_desc.is_none(); if single { assert!(h.fcs.is_some()); } else { assert!(!matches!(h.fcs, Some((1, _)))); }
-    out.push((fcs_flag << 6) | ((single as u8) << 5) | ((h.checksum as u8) << 2) | did_flag);
-    if let Some(w) = h.window_desc { out.push(w); }
-    if let Some((w, id)) = h.dict_id { out.extend(&id.to_le_bytes()[..w as usize]); }
-    if let Some((w, v)) = h.fcs { let v = if w == 2 { v - 256 } else { v }; out.extend(&v.to_le_bytes()[..w as usize]); }
-    let mut st = EncState::default();
-    for (i, b) in blocks.iter().enumerate() { let last = (i + 1 == blocks.len()) as u32;
-        match b { Block::Raw(v) => { out.extend(&((v.len() as u32) << 3 | last).to_le_bytes()[..3]); out.extend(v); }
-            Block::Rle(x, n) => { out.extend(&(n << 3 | 1 << 1 | last).to_le_bytes()[..3]); out.push(*x); }
-            Block::Compressed { lits, count_form, modes, seqs } => { let body = encode_block_body(lits, *count_form, modes, seqs, &mut st); assert!(body.len() <= 128 * 1024); out.extend(&((body.len() as u32) << 3 | 2 << 1 | last).to_le_bytes()[..3]); out.extend(body); } } }
-    if h.checksum { let x = crate::xxh64(&execute(blocks, &[])); out.extend(&(x as u32).to_le_bytes()); }
-    out
+pub fn encode_header(h: &Header) -> Result<Vec<u8>, String> {
+    let mut out = MAGIC.to_le_bytes().to_vec();
+    let fcs_flag = match h.fcs {
+        None => 0,
+        Some((1, _)) => 0,
+        Some((2, _)) => 1,
+        Some((4, _)) => 2,
+        Some((8, _)) => 3,
+        _ => return Err("fcs width".into()),
+    };
+    let did_flag = match h.dict_id {
+        None => 0,
+        Some((1, _)) => 1,
+        Some((2, _)) => 2,
+        Some((4, _)) => 3,
+        _ => return Err("dict id width".into()),
+    };
+    let single = h.window_desc.is_none();
+    if single && h.fcs.is_none() {
+        return Err("single segment needs a content size".into());
+    }
+    if !single && matches!(h.fcs, Some((1, _))) {
+        return Err("1-byte content size exists only with single segment".into());
+    }
+    out.push((fcs_flag << 6) | ((single as u8) << 5) | ((h.unused_bit as u8) << 4) | ((h.reserved_bit as u8) << 3) | ((h.checksum as u8) << 2) | did_flag);
+    if let Some(w) = h.window_desc {
+        out.push(w);
+    }
+    if let Some((w, id)) = h.dict_id {
+        if w < 4 && (id as u64) >> (8 * w) != 0 {
+            return Err("dict id does not fit".into());
+        }
+        out.extend(&id.to_le_bytes()[..w as usize]);
+    }
+    if let Some((w, v)) = h.fcs {
+        let v = if w == 2 {
+            if !(256..=65791).contains(&v) {
+                return Err("2-byte content size range".into());
+            }
+            v - 256
+        } else {
+            v
+        };
+        if w < 8 && v >> (8 * w) != 0 {
+            return Err("content size does not fit".into());
+        }
+        out.extend(&v.to_le_bytes()[..w as usize]);
+    }
+    Ok(out)
 }
 
-/// Sequence execution semantics -> plaintext.
-pub fn execute(blocks: &[Block], dict: &[u8]) -> Vec<u8> {
-    let mut out: Vec<u8> = dict.to_vec(); let mut rep = [1u32, 4, 8];
-    for b in blocks { match b { Block::Raw(v) => out.extend(v), Block::Rle(x, n) => out.extend(std::iter::repeat(*x).take(*n as usize)),
-        Block::Compressed { lits, seqs, .. } => { let l = lit_bytes(lits); let mut lp = 0usize;
-            for s in seqs { out.extend(&l[lp..lp + s.ll as usize]); lp += s.ll as usize;
-                let off = if s.of > 3 { let o = s.of - 3; rep = [o, rep[0], rep[1]]; o } else { let idx = if s.ll == 0 { s.of } else { s.of - 1 }; // 0,1,2 ; 3 means rep[0]-1
-                        let o = if idx == 3 { rep[0] - 1 } else { rep[idx as usize] }; assert!(o != 0);
-                        if idx == 1 { rep = [o, rep[0], rep[2]]; } else if idx >= 2 { rep = [o, rep[0], rep[1]]; } o };
-                assert!(off as usize <= out.len(), "offset {off} beyond history {}", out.len());
-                for _ in 0..s.ml { let c = out[out.len() - off as usize]; out.push(c); } }
-            out.extend(&l[lp..]); } } }
-    out.split_off(dict.len())
+pub fn encode_blocks(blocks: &[Block], st: &mut EncState) -> Result<Vec<u8>, String> {
+    let mut out = vec![];
+    for (i, b) in blocks.iter().enumerate() {
+        let last = (i + 1 == blocks.len()) as u32;
+        match b {
+            Block::Raw(v) => {
+                if v.len() > MAX_BLOCK {
+                    return Err("raw block too large".into());
+                }
+                out.extend(&((v.len() as u32) << 3 | last).to_le_bytes()[..3]);
+                out.extend(v);
+            }
+            Block::Rle(x, n) => {
+                if *n as usize > MAX_BLOCK {
+                    return Err("rle block too large".into());
+                }
+                out.extend(&(n << 3 | 1 << 1 | last).to_le_bytes()[..3]);
+                out.push(*x);
+            }
+            Block::Compressed { lits, count_form, modes, seqs, pick } => {
+                let body = encode_block_body(lits, *count_form, modes, seqs, *pick, st)?;
+                if body.len() > MAX_BLOCK {
+                    return Err("compressed block body too large".into());
+                }
+                out.extend(&((body.len() as u32) << 3 | 2 << 1 | last).to_le_bytes()[..3]);
+                out.extend(body);
+            }
+        }
+    }
+    Ok(out)
+}
+
+/// FrameSpec -> bytes. The checksum is the model's own XXH64 of the executor's plaintext.
+pub fn encode_frame(spec: &FrameSpec, dict: Option<&Dict>) -> Result<Vec<u8>, String> {
+    if spec.blocks.is_empty() {
+        return Err("a frame has at least one block".into());
+    }
+    let mut out = encode_header(&spec.header)?;
+    let mut st = dict.map(EncState::from_dict).unwrap_or_default();
+    out.extend(encode_blocks(&spec.blocks, &mut st)?);
+    if spec.header.checksum {
+        let plain = execute(&spec.blocks, dict)?;
+        out.extend(&xxh::checksum32(&plain).to_le_bytes());
+    }
+    Ok(out)
+}
+
+/// Repeat-offset rule of section 3.1.1.5: returns the actual offset and updates the history.
+pub fn resolve_offset(of: u32, ll: u32, rep: &mut [u32; 3]) -> Result<u32, String> {
+    if of > 3 {
+        let o = of - 3;
+        *rep = [o, rep[0], rep[1]];
+        return Ok(o);
+    }
+    let idx = if ll == 0 { of } else { of - 1 }; // 0, 1, 2; 3 means rep[0] - 1
+    let o = if idx == 3 { rep[0].wrapping_sub(1) } else { rep[idx as usize] };
+    if o == 0 || (idx == 3 && rep[0] == 0) {
+        return Err("repeat offset resolves to 0".into());
+    }
+    match idx {
+        0 => {}
+        1 => *rep = [o, rep[0], rep[2]],
+        _ => *rep = [o, rep[0], rep[1]],
+    }
+    Ok(o)
+}
+
+/// Sequence execution semantics -> plaintext (without the dictionary prefix). Errors on offsets beyond
+/// dictionary + output and on literal counts that do not match.
+pub fn execute(blocks: &[Block], dict: Option<&Dict>) -> Result<Vec<u8>, String> {
+    let dict_content: &[u8] = dict.map(|d| d.content.as_slice()).unwrap_or(&[]);
+    let mut out: Vec<u8> = dict_content.to_vec();
+    let mut rep = dict.map(|d| d.rep).unwrap_or([1u32, 4, 8]);
+    for b in blocks {
+        match b {
+            Block::Raw(v) => out.extend(v),
+            Block::Rle(x, n) => out.extend(std::iter::repeat(*x).take(*n as usize)),
+            Block::Compressed { lits, seqs, .. } => {
+                let l = lit_bytes(lits);
+                let mut lp = 0usize;
+                for s in seqs {
+                    let end = lp + s.ll as usize;
+                    if end > l.len() {
+                        return Err("sequences use more literals than the block has".into());
+                    }
+                    out.extend(&l[lp..end]);
+                    lp = end;
+                    let off = resolve_offset(s.of, s.ll, &mut rep)? as usize;
+                    if off > out.len() {
+                        return Err(format!("offset {off} beyond dictionary+output {}", out.len()));
+                    }
+                    let start = out.len() - off;
+                    for i in 0..s.ml as usize {
+                        let c = out[start + i];
+                        out.push(c);
+                    }
+                }
+                out.extend(&l[lp..]);
+            }
+        }
+    }
+    Ok(out.split_off(dict_content.len()))
+}
+
+/// Convenience: bytes and plaintext of a spec; None if the spec cannot be represented.
+pub fn realize(spec: &FrameSpec, dict: Option<&Dict>) -> Option<(Vec<u8>, Vec<u8>)> {
+    let f = encode_frame(spec, dict).ok()?;
+    let p = execute(&spec.blocks, dict).ok()?;
+    Some((f, p))
+}
+
+pub fn pre() -> [Mode; 3] {
+    [Mode::Predefined, Mode::Predefined, Mode::Predefined]
 }
